@@ -3076,18 +3076,8 @@ namespace detail {
 
             reference evaluate(reference val, eval_context<Json>& context, std::error_code& ec) const override
             {
-                if (!val.is_array())
+                if (!val.is_array()) // a filter expression is only defined for an array
                 {
-                    eval_context<Json> new_context{ context.temp_storage_, context.variables_ };
-                    Json j(const_json_ptr_arg, &evaluate_tokens(val, token_list_, new_context, ec));
-                    if (is_true(j))
-                    {
-                        reference jj = this->apply_expressions(val, context, ec);
-                        if (!jj.is_null())
-                        {
-                            return jj;
-                        }
-                    }
                     return context.null_value();
                 }
                 auto result = context.create_json(json_array_arg);
